@@ -25,9 +25,9 @@ type verifNode struct {
 	failPeers bool
 }
 
-func (n *verifNode) NodeRPC() *rpc.Client                 { return nil }
+func (n *verifNode) NodeRPC() *rpc.Client                  { return nil }
 func (n *verifNode) ContractBackend() bind.ContractBackend { return nil }
-func (n *verifNode) Kind() ethnode.NodeKind               { return n.ua.Kind }
+func (n *verifNode) Kind() ethnode.NodeKind                { return n.ua.Kind }
 func (n *verifNode) UserAgent() ethnode.UserAgent          { return n.ua }
 func (n *verifNode) Enode(ctx context.Context) (string, error) {
 	return "enode://" + verifapi.NodeID(0) + "@127.0.0.1:30303", nil
@@ -62,14 +62,14 @@ func (n *verifNode) BlockNumber(ctx context.Context) (uint64, error) { return 42
 
 // verifPoolScript is a scripted pool.Pool.
 type verifPoolScript struct {
-	update     *pool.UpdateResponse
-	updateErr  error
-	peerResp   *pool.PeerResponse
-	peerErr    error
-	connectErr error
-	updates    int
-	peerReqs   []pool.PeerRequest
-	connects   int
+	update       *pool.UpdateResponse
+	updateErr    error
+	peerResp     *pool.PeerResponse
+	peerErr      error
+	connectErr   error
+	updates      int
+	peerReqs     []pool.PeerRequest
+	connects     int
 	failUpdateAt int // fail the k-th update (1-based); 0 = never
 }
 
